@@ -1,5 +1,11 @@
 use crate::{ansi::parse_next_number, EngineResult, Palette, ParserError, Position, Rectangle, Size};
 
+/// Upper limits for a decoded picture. The largest terminal is 132x60 cells, pixels and
+/// colour registers beyond these limits are ignored instead of being allocated.
+const MAX_SIXEL_WIDTH: i32 = 2048;
+const MAX_SIXEL_HEIGHT: i32 = 2048;
+const MAX_SIXEL_COLORS: u32 = 1024;
+
 #[derive(Clone, Debug, Copy)]
 pub enum SixelState {
     Read,
@@ -98,7 +104,7 @@ impl SixelParser {
                     self.parsed_numbers.push(0);
                 } else {
                     if let Some(color) = self.parsed_numbers.first() {
-                        self.current_sixel_color = *color as u32;
+                        self.current_sixel_color = (*color as u32).min(MAX_SIXEL_COLORS - 1);
                     }
                     if self.parsed_numbers.len() > 1 {
                         if self.parsed_numbers.len() != 5 {
@@ -109,9 +115,9 @@ impl SixelParser {
                             Some(2) => {
                                 self.current_sixel_palette.set_color_rgb(
                                     self.current_sixel_color,
-                                    (self.parsed_numbers[2] * 255 / 100) as u8,
-                                    (self.parsed_numbers[3] * 255 / 100) as u8,
-                                    (self.parsed_numbers[4] * 255 / 100) as u8,
+                                    (self.parsed_numbers[2].min(100) * 255 / 100) as u8,
+                                    (self.parsed_numbers[3].min(100) * 255 / 100) as u8,
+                                    (self.parsed_numbers[4].min(100) * 255 / 100) as u8,
                                 );
                             }
                             Some(1) => {
@@ -149,14 +155,14 @@ impl SixelParser {
                     self.vertical_scale = self.parsed_numbers[0];
                     self.horizontal_scale = self.parsed_numbers[1];
                     if self.parsed_numbers.len() == 3 {
-                        let height = self.parsed_numbers[2];
+                        let height = self.parsed_numbers[2].min(MAX_SIXEL_HEIGHT);
                         self.picture_data.resize(height as usize, Vec::new());
                         self.height_set = true;
                     }
 
                     if self.parsed_numbers.len() == 4 {
-                        let height = self.parsed_numbers[3];
-                        let width = self.parsed_numbers[2];
+                        let height = self.parsed_numbers[3].min(MAX_SIXEL_HEIGHT);
+                        let width = self.parsed_numbers[2].min(MAX_SIXEL_WIDTH);
                         self.picture_data.resize(height as usize, vec![0; 4 * width as usize]);
                         self.height_set = true;
                     }
@@ -173,7 +179,8 @@ impl SixelParser {
                     self.parsed_numbers.push(parse_next_number(d, ch as u8));
                 } else {
                     if let Some(i) = self.parsed_numbers.first() {
-                        for _ in 0..*i {
+                        // repeating more often than the picture is wide (or high) has no further effect
+                        for _ in 0..(*i).min(MAX_SIXEL_WIDTH.max(MAX_SIXEL_HEIGHT)) {
                             self.parse_sixel_data(ch)?;
                         }
                     } else {
@@ -200,9 +207,14 @@ impl SixelParser {
             .get_color((self.current_sixel_color) % self.current_sixel_palette.len() as u32)
             .clone();
         let x_pos = self.sixel_cursor.x;
-        let y_pos = self.sixel_cursor.y * 6;
+        let y_pos = self.sixel_cursor.y.saturating_mul(6);
+        if x_pos >= MAX_SIXEL_WIDTH || y_pos >= MAX_SIXEL_HEIGHT {
+            // outside of the largest supported picture
+            self.sixel_cursor.x = self.sixel_cursor.x.saturating_add(1);
+            return Ok(());
+        }
 
-        let mut last_line = y_pos + 6;
+        let mut last_line = (y_pos + 6).min(MAX_SIXEL_HEIGHT);
         if self.height_set && last_line > self.height() {
             last_line = self.height();
         }
@@ -250,7 +262,7 @@ impl SixelParser {
             }
             '-' => {
                 self.sixel_cursor.x = 0;
-                self.sixel_cursor.y += 1;
+                self.sixel_cursor.y = self.sixel_cursor.y.saturating_add(1);
             }
             '$' => {
                 self.sixel_cursor.x = 0;
